@@ -36,7 +36,7 @@ PROPS = {
     ),
     "C03": dict(
         domains=[("codec", "decode", 12000, 200000), ("codec", "frame", 4000, 60000), ("codec", "build", 2000, 20000),
-                 ("resource", "claim", 1, 1), ("resource", "nest", 1, 1), ("resource", "retain", 1, 1), ("stream", "read", 3000, 30000)],
+                 ("resource", "claim", 1, 1), ("resource", "nest", 1, 1), ("resource", "retain", 1, 1), ("resource", "buflen", 1, 1), ("stream", "read", 3000, 30000)],
         thorough_extra=[("resource", "nestdeep", 1, 1)],
         relevant=["C03:"],
         theorems=['DV.Props.C03.C03_avp_nopanic', 'DV.Props.C03.C03_avps_nopanic', 'DV.Props.C03.C03_header_nopanic', 'DV.Props.C03.C03_message_nopanic', 'DV.Props.C03.C03_short_length_rejected', 'DV.Props.C03.C03_pretty_asserts', 'DV.Props.C03.C03_serialize_fits', 'DV.Props.C03.C03_serialize_message_fits', 'DV.Props.C03.C03_gen',
@@ -59,7 +59,7 @@ PROPS = {
         trusted=CODEC_TRUST + ["Model.Stream hand-written from message.go readHeader/readBody and io.ReadFull's contract"],
     ),
     "C07": dict(
-        domains=[("retry", "write", 6000, 100000), ("retry", "exhaustive", 900, 900), ("retry", "conn", 1500, 20000), ("conn", "cwrite", 150, 1500), ("conn", "lw", 200, 2000), ("conn", "pipeline", 60, 600)],
+        domains=[("retry", "write", 6000, 100000), ("retry", "exhaustive", 900, 900), ("retry", "conn", 1500, 20000), ("conn", "cwrite", 150, 1500), ("conn", "lw", 200, 2000), ("conn", "pipeline", 60, 600), ("resource", "buflen", 1, 1)],
         relevant=["C07:"],
         theorems=["DV.Props.C07."+t for t in ["C07_retry","C07_retry_stops","C07_retry_conn","C07_failed_write_is_final","C07_conn_next","C07_whole","C07_exclusive","C07_once_ordered","C07_quiescent","C07_pool_exclusive","C07_pool_double_put_counterexample","C07_pool_gen","C07_gen"]],
         gen_obligations=["Gen.responseWriteLocked","Gen.MessageBufferLength","Gen.responseWriteReturns","Gen.serverResetCalls","Gen.connBufferSources","Gen.poolUsers","Gen.poolPrimitives"],
@@ -116,7 +116,7 @@ PROPS = {
         trusted=CONN_TRUST,
     ),
     "C14": dict(
-        domains=[("conn", "closenotify", 600, 8000), ("conn", "cnall4", 1, 1), ("conn", "serve", 200, 2000), ("sctp", "serve", 300, 4000), ("conn", "tlscn", 8, 40), ("conn", "stall", 1, 1)],
+        domains=[("conn", "closenotify", 600, 8000), ("conn", "cnall4", 1, 1), ("conn", "serve", 200, 2000), ("sctp", "serve", 300, 4000), ("conn", "tlscn", 8, 40), ("conn", "stall", 1, 1), ("conn", "wfail", 1, 1)],
         thorough_extra=[("conn", "cnall6", 1, 1)],
         relevant=["C14:"],
         theorems=["DV.Props.C14."+t for t in ["C14_once","C14_only_when_gone","C14_quiet","C14_late_request","C14_transparent","C14_nothing_stuck","C14_multistream","C14_close_never_waits","C14_stuck_writer_released","C14_close_behind_write_lock_counterexample","C14_close_gen","C14_gen"]],
